@@ -540,7 +540,7 @@ func (w *World) translateShape(P string, f *Facts) {
 				first := false
 				for _, a := range guardAtoms(x.Block()) {
 					if ex, ok := a.V.(*ssa.Extract); ok && ex.Index == 1 && !a.Pol {
-						if lk, ok := ex.Tuple.(*ssa.Lookup); ok && lk.X == x.Map && lk.Index == x.Key {
+						if lk, ok := ex.Tuple.(*ssa.Lookup); ok && sameObj(lk.X, x.Map) && lk.Index == x.Key {
 							first = true
 						}
 					}
@@ -584,7 +584,7 @@ func (w *World) translateShape(P string, f *Facts) {
 							return false
 						}
 						bi, ok := c.Call.Value.(*ssa.Builtin)
-						return ok && bi.Name() == "len" && c.Call.Args[0] == x.X
+						return ok && bi.Name() == "len" && sameObj(c.Call.Args[0], x.X)
 					}
 					if bo.X == x.Index && isLen(bo.Y) && ((bo.Op == token.LSS && a.Pol) || (bo.Op == token.GEQ && !a.Pol)) {
 						guarded = true
